@@ -101,7 +101,10 @@ def render_expr(e, ctx, lang):
     if t in ('NR', 'NF', 'NU', 'bNR', 'aNR'):
         return t
     if t == 'str':
-        return lit(e[1], e[2] if len(e) > 2 else "'")
+        txt = lit(e[1], e[2] if len(e) > 2 else "'")
+        if len(e) > 3 and e[3] == 'rawtab':
+            txt = txt.replace('\\t', '\t')
+        return txt
     if t == 'int':
         return str(e[1])
     if t == 'concat':
@@ -257,12 +260,38 @@ def _case_scramble(word, rng):
 
 
 def _scramble_keywords(clause, rng):
-    """Per-letter case change of the leading keyword(s) of a clause and of ON / AND / AS / ASC / DESC / TOP / DISTINCT COUNT outside literals.
-    The clause texts produced by `clauses` keep literals quoted, so only a conservative set of positions is touched: the leading keywords."""
-    m = re.match(r'^(STRICT LEFT JOIN|LEFT OUTER JOIN|LEFT JOIN|INNER JOIN|JOIN|SELECT TOP|SELECT DISTINCT COUNT|SELECT DISTINCT|SELECT|UPDATE SET|UPDATE|WHERE|ORDER BY|GROUP BY|LIMIT|EXCEPT)\b', clause)
-    if not m:
-        return clause
-    return _case_scramble(m.group(1), rng) + clause[m.end():]
+    """Per-letter case change of RBQL keywords of one clause text, never touching anything inside or after a string literal."""
+    import re as _re
+    cut = len(clause)
+    for ch in ('"', "'"):
+        i = clause.find(ch)
+        if i != -1:
+            cut = min(cut, i)
+    headpart, rest = clause[:cut], clause[cut:]
+    m = _re.match(r'^(SELECT)( TOP)?( \d+)?( DISTINCT)?( COUNT)?(?= )', headpart)
+    if m:
+        out = ''
+        for g in m.groups():
+            if g:
+                out += _case_scramble(g, rng)
+        headpart = out + headpart[m.end():]
+    else:
+        m = _re.match(r'^(STRICT LEFT JOIN|LEFT OUTER JOIN|LEFT JOIN|INNER JOIN|JOIN|UPDATE a SET|UPDATE SET|UPDATE|WHERE|ORDER BY|GROUP BY|LIMIT|EXCEPT|FROM)\b', headpart)
+        if m:
+            kw = m.group(1)
+            if kw.startswith('UPDATE a'):
+                kw2 = _case_scramble('UPDATE', rng) + ' a ' + _case_scramble('SET', rng)
+            else:
+                kw2 = _case_scramble(kw, rng)
+            headpart = kw2 + headpart[m.end():]
+            if 'JOIN' in kw:
+                headpart = _re.sub(r' ON ', lambda mo: ' ' + _case_scramble('ON', rng) + ' ', headpart, count=1)
+                headpart = _re.sub(r' AND ', lambda mo: ' ' + _case_scramble('AND', rng) + ' ', headpart)
+    if not rest:
+        m = _re.search(r' (ASC|DESC)$', headpart)
+        if m and clause.upper().startswith('ORDER BY'):
+            headpart = headpart[:m.start()] + ' ' + _case_scramble(m.group(1), rng)
+    return headpart + rest
 
 
 def respell(q, ctx, rng, lang='py'):
@@ -279,8 +308,8 @@ def respell(q, ctx, rng, lang='py'):
         for p in j['pairs']:
             if rng.random() < 0.5:
                 p[2] = '=' if p[2] == '==' else '=='
-            if rng.random() < 0.5:
-                p[3] = not p[3]
+            if rng.random() < 0.5 and not isinstance(p[0], str):
+                p[3] = not p[3]      # swapped sides only for field keys (NR / aNR stay on the left)
         if rng.random() < 0.3:
             j['table'] = 'B' if j['table'] == 'b' else 'b'
 
@@ -335,6 +364,9 @@ def respell(q, ctx, rng, lang='py'):
         s = '# leading comment\n' + s
     if rng.random() < 0.3:
         s = '  ' + s
+    if rng.random() < 0.2:
+        s += rng.choice([';', '']) + '\n# trailing comment; select'
+        return s
     r = rng.random()
     if r < 0.25:
         s += ';'
